@@ -22,6 +22,7 @@ COUNT = {"quick": 6000, "thorough": None}
 BUDGET = {"quick": 45, "thorough": 600}
 CHUNK = 4000
 RULE = (
+    "30% of the non-nested scenarios build every configuration part as an object of the user's own and use it for two steps. "
     "scripted optimizer/evaluator-step runs whose request points are drawn in [-4,4]^n (user domain), i.e. inside and "
     "outside the variable bounds and linear constraints; bound vectors mix finite and infinite entries on either side "
     "(styles none/finite/mixed/lower/upper per variable); 0-2 linear and 0-2 non-linear constraints of kinds <=,>=,=,"
